@@ -1,13 +1,13 @@
 SPECIFICATION Spec
 CONSTANTS
-  MaxLen = 5
+  MaxLen = 4
   StepMode = FALSE
-  DeclSet = {"id", "strna", "urlq", "list"}
-  CpropSet = {"nl"}
-  CmtSet = {"multi", "na"}
+  DeclSet = {"id", "pna"}
+  CpropSet = {}
+  CmtSet = {}
   RuleSet = {"asc", "na"}
-  AtAttr = {"-"}
-  Extra = {}
+  AtAttr = {"-", "na", "name"}
+  Extra = {"sup", "kf", "imp"}
 INVARIANT DesignAccepted
 INVARIANT Sensitive
 INVARIANT EmitVec
